@@ -50,7 +50,8 @@ _c = fragcheck.FragCheck(
     PROP, evaluate,
     profiles=[(3, dict(_P), "mixed"), (2, dict(_P, direct_only=True), "direct"),
               (1, dict(_P, max_subs=5, max_depth=4), "deep"),
-              (2, dict(_P, max_subs=4, max_stmts=3, weights={"call": 8, "ret": 3, "doloop": 2}), "call-heavy")],
+              (2, dict(_P, max_subs=4, max_stmts=3, weights={"call": 8, "ret": 3, "doloop": 2}), "call-heavy"),
+              (1, {"lattice": True, "keys": ["GroupSize", "GroupIndex", "Addr"]}, "call-lattice")],
     sizes={"quick": (32, 40), "thorough": (160, 150)},
     rule="fragment programs biased to GroupSize/GroupIndex checks x all 136 (size, index) pairs x representatives of the other "
          "fields; non-trivial = distinct (program, block) whose reported size or index set is a proper non-empty subset",
